@@ -44,6 +44,118 @@ Theorem prox_tree_minimises_general_step : forall (e : @fexpr R), wf e -> forall
 Proof. exact fprox_optimal_all. Qed.
 Print Assumptions prox_tree_minimises_general_step.
 
+(* T1 (stronger, variational form -- no convexity assumption is needed anywhere): the point p returned
+   for the tree satisfies  f(z) >= f(p) + <x - p, z - p>_m  for ALL z (m_i = w_i / sigma_i). *)
+Theorem prox_tree_variational : forall (e : @fexpr R), wf e -> forall (s : @sig R) (x : list R),
+  sig_ok e s -> length x = fdim e ->
+  exists p, fprox e s x = Ok p /\ length p = fdim e /\
+    exists vp, fval e p = Some vp /\
+      forall z, length z = fdim e ->
+        ele (Some (vp + wdot (metric (fweights e) (sig_flat e s)) (vsub z p) (vsub x p))) (fval e z).
+Proof. exact fprox_proxs_all. Qed.
+Print Assumptions prox_tree_variational.
+
+(* "no OTHER point gives a smaller value", strictly: every z differs from p in objective value by at
+   least half its squared distance to p; hence the minimiser is unique. *)
+Theorem prox_strictly_minimal : forall n (f : list R -> option R) (m x p : list R),
+  length m = n -> length x = n -> is_proxs n f m x p ->
+  forall z, length z = n ->
+    ele (match f p with
+         | Some vp => Some (vp + wnormsq m (vsub p x) / 2 + wnormsq m (vsub z p) / 2)
+         | None => None end)
+        (prox_obj f m x z).
+Proof. exact proxs_strict. Qed.
+Print Assumptions prox_strictly_minimal.
+
+Theorem prox_minimiser_is_unique : forall n (f : list R -> option R) (m x p z : list R),
+  length m = n -> length x = n -> allpos m -> is_proxs n f m x p -> length z = n ->
+  ele (prox_obj f m x z) (prox_obj f m x p) -> z = p.
+Proof. exact prox_minimiser_unique. Qed.
+Print Assumptions prox_minimiser_is_unique.
+
+(* Consequence 1: firm non-expansiveness,  ||p1 - p2||^2 <= <p1 - p2, x1 - x2>  in the norm of the
+   functional's own weighted space, for every well-formed tree and every sigma > 0. *)
+Theorem prox_tree_firmly_nonexpansive : forall (e : @fexpr R) (sigma : R) (x1 x2 p1 p2 : list R),
+  wf e -> 0 < sigma -> length x1 = fdim e -> length x2 = fdim e ->
+  fprox e (SScal sigma) x1 = Ok p1 -> fprox e (SScal sigma) x2 = Ok p2 ->
+  wnormsq (fweights e) (vsub p1 p2) <= wdot (fweights e) (vsub p1 p2) (vsub x1 x2).
+Proof. exact fprox_firmly_nonexpansive_scalar. Qed.
+Print Assumptions prox_tree_firmly_nonexpansive.
+
+(* ... and for per-point / per-component steps in the step-weighted metric *)
+Theorem prox_tree_firmly_nonexpansive_general_step : forall (e : @fexpr R) (s : @sig R) (x1 x2 p1 p2 : list R),
+  wf e -> sig_ok e s -> length x1 = fdim e -> length x2 = fdim e ->
+  fprox e s x1 = Ok p1 -> fprox e s x2 = Ok p2 ->
+  let m := metric (fweights e) (sig_flat e s) in
+  wnormsq m (vsub p1 p2) <= wdot m (vsub p1 p2) (vsub x1 x2).
+Proof. exact fprox_firmly_nonexpansive. Qed.
+Print Assumptions prox_tree_firmly_nonexpansive_general_step.
+
+(* Consequence 2: if the tree denotes an indicator (its value is c on a set and +infinity elsewhere), the
+   proximal point lies in the set and the proximal is idempotent. *)
+Theorem prox_tree_indicator_lands_and_idempotent : forall (e : @fexpr R) (s : @sig R) (c : R) (x p : list R),
+  wf e -> sig_ok e s -> length x = fdim e ->
+  (forall z, length z = fdim e -> fval e z = None \/ fval e z = Some c) ->
+  fprox e s x = Ok p ->
+  fval e p = Some c /\ fprox e s p = Ok p.
+Proof. exact fprox_indicator. Qed.
+Print Assumptions prox_tree_indicator_lands_and_idempotent.
+
+(* The calculus rules, for an ARBITRARY functional f (not only the modelled leaves): if the inner proximal
+   returns the proximal point of f (variational form) then the rule's output is the proximal point of the
+   derived functional.  These are what proximal_translation / FunctionalLeftScalarMult.proximal /
+   proximal_arg_scaling / proximal_quadratic_perturbation / combine_proximals compute. *)
+Theorem rule_translation_sound : forall n (f : list R -> option R) (m t x q : list R),
+  length m = n -> length t = n -> length x = n ->
+  is_proxs n f m (vsub x t) q -> is_proxs n (fun z => f (vsub z t)) m x (vadd t q).
+Proof. exact rule_translation. Qed.
+Theorem rule_left_scaling_sound : forall n (f : list R -> option R) (m : list R) (s : R) (x q : list R),
+  0 < s -> length m = n -> length x = n ->
+  is_proxs n f (map (fun a => a * / s) m) x q -> is_proxs n (fun z => escal s (f z)) m x q.
+Proof. exact rule_left_scaling. Qed.
+Theorem rule_arg_scaling_sound : forall n (f : list R -> option R) (m : list R) (c : R) (x q : list R),
+  c <> 0 -> length m = n -> length x = n ->
+  is_proxs n f (map (fun a => a * / (c * c)) m) (vscal c x) q ->
+  is_proxs n (fun z => f (vscal c z)) m x (vscal (1 / c) q).
+Proof. exact rule_arg_scaling. Qed.
+Theorem rule_quadratic_perturbation_sound : forall n (f : list R -> option R) (w : list R) (sigma a : R) (u : list R) (k : R) (x q : list R),
+  0 < sigma -> 0 <= a -> allpos w -> length w = n -> length u = n -> length x = n ->
+  is_proxs n f (metric w (repeat (sigma * / (2 * sigma * a + 1)) n))
+           (vscal (/ (2 * sigma * a + 1)) (vsub x (vscal sigma u))) q ->
+  is_proxs n (fun z => eadd (f z) (Some (a * wnormsq w z + wdot w z u + k))) (metric w (repeat sigma n)) x q.
+Proof. exact rule_quadratic_perturbation. Qed.
+Theorem rule_separable_sum_sound : forall n1 n2 (f1 f2 : list R -> option R) (m1 m2 x1 x2 p1 p2 : list R),
+  length m1 = n1 -> length x1 = n1 -> length m2 = n2 -> length x2 = n2 ->
+  is_proxs n1 f1 m1 x1 p1 -> is_proxs n2 f2 m2 x2 p2 ->
+  is_proxs (n1 + n2) (fun z => eadd (f1 (firstn n1 z)) (f2 (skipn n1 z))) (m1 ++ m2) (x1 ++ x2) (p1 ++ p2).
+Proof. exact rule_separable. Qed.
+Theorem variational_form_implies_minimiser : forall n (f : list R -> option R) (m x p : list R),
+  length m = n -> length x = n -> allpos m -> is_proxs n f m x p -> is_proxm n f m x p.
+Proof. exact is_proxs_proxm. Qed.
+Print Assumptions rule_quadratic_perturbation_sound.
+
+(* The factories called directly with lam and g (weighted space, per-point steps where documented):
+   proximal_l1(space, lam, g) is the proximal of lam*||. - g||_1, proximal_l2_squared of lam*||. - g||^2,
+   proximal_convex_conj_l2_squared of ||.||^2/(4 lam) + <., g>, proximal_convex_conj_l1 of the indicator of
+   the lam-box plus <., g>. *)
+Theorem factory_l1 : forall lam n (g w sv x : list R), 0 < lam ->
+  length g = n -> length w = n -> length sv = n -> length x = n -> allpos w -> allpos sv ->
+  is_proxs n (F_l1 lam g w) (metric w sv) x (prox_l1 lam (Some g) sv x).
+Proof. exact l1_factory_prox. Qed.
+Theorem factory_l2_squared : forall lam n (g w sv x : list R), 0 < lam ->
+  length g = n -> length w = n -> length sv = n -> length x = n -> allpos w -> allpos sv ->
+  is_proxs n (F_l2sq lam g w) (metric w sv) x (prox_l2sq lam (Some g) sv x).
+Proof. exact l2sq_factory_prox. Qed.
+Theorem factory_convex_conj_l2_squared : forall lam n (g w sv x : list R), 0 < lam ->
+  length g = n -> length w = n -> length sv = n -> length x = n -> allpos w -> allpos sv ->
+  is_proxs n (F_ccl2sq lam g w) (metric w sv) x (prox_cc_l2sq lam (Some g) sv x).
+Proof. exact ccl2sq_factory_prox. Qed.
+Theorem factory_convex_conj_l1 : forall lam n (g w : list R) (s : R) (x : list R), 0 < lam -> 0 < s ->
+  length g = n -> length w = n -> length x = n -> allpos w ->
+  is_proxs n (F_ccl1 lam g w) (metric w (repeat s n)) x (prox_cc_l1 lam (Some g) s x).
+Proof. exact ccl1_factory_prox. Qed.
+Print Assumptions factory_convex_conj_l1.
+
 (* non-vacuity: a weighted, translated, scaled, perturbed separable tree is well-formed *)
 Example wf_example :
   wf (Sep (Transl [1; 2] (LScal 2 (Leaf FL1 [1; 3])))
